@@ -45,7 +45,53 @@ def check_errors_is(res, gr, results):
     res.coverage["errors_is_vectors_checked"] = checked
 
 
+def cel_next_to_checkless(res):
+    """A struct-valued field under `required` (which renders no check for it) that also carries a CEL rule: the report still has the
+    CEL entry.  The generator model does not cover CEL conditions, so the oracle is this function (required on "" / the two
+    integer comparisons of the expressions)."""
+    from synth import T, basic, case, fld, scenario, set_int, set_str, struct
+    s, i = basic("string"), basic("int")
+    win = T("Window", "TNamed TStructT", "opaque")
+    vals = [(a, b) for a in (0, 1, 5) for b in (0, 1, 5)]
+    booking = struct("Booking", [fld("Name", [], s), fld("Slot", ["//govalid:cel=value.Min <= value.Max"], win)],
+                     [case([set_str("Name", n), set_int("Slot.Min", a), set_int("Slot.Max", b)]) for n in (b"", b"n") for a, b in vals], gendoc=["//govalid:required"])
+    resv = struct("Reservation", [fld("Span", ["//govalid:cel=value.Min <= value.Max", "//govalid:required"], win), fld("Seats", ["//govalid:gt=0"], i),
+                                  fld("Alt", ["//govalid:required", "//govalid:cel=value.Min != value.Max"], win)],
+                  [case([set_int("Span.Min", a), set_int("Span.Max", b), set_int("Seats", k), set_int("Alt.Min", b), set_int("Alt.Max", a)]) for k in (0, 2) for a, b in vals])
+    corpus = {"scenarios": [scenario("c07cel", [booking, resv], aux=["type Window struct{ Min, Max int }"])]}
+
+    def oracle(gr, results):
+        n = 0
+        for m in gr.meta:
+            sc, st = genprop.find_struct(gr, m["key"])
+            for j, cs in enumerate(st["cases"]):
+                o = gr.obs.get("%s/%d" % (m["key"], j))
+                if o is None:
+                    continue
+                n += 1
+                v = {x["path"]: (bytes.fromhex(x["str"]) if x["vk"] == "string" else int(x["int"])) for x in cs["sets"]}
+                if st["name"] == "Booking":
+                    want = ([("Booking.Name", "required")] if v["Name"] == b"" else []) + ([("Booking.Slot", "cel")] if not v["Slot.Min"] <= v["Slot.Max"] else [])
+                else:
+                    want = ([("Reservation.Span", "cel")] if not v["Span.Min"] <= v["Span.Max"] else []) + ([("Reservation.Seats", "gt")] if not v["Seats"] > 0 else []) + \
+                           ([("Reservation.Alt", "cel")] if not v["Alt.Min"] != v["Alt.Max"] else [])
+                got = None
+                if o["VT"] == "nil":
+                    got = []
+                elif o["VT"].startswith("R:"):
+                    got = [tuple(unhex(x).decode() for x in part.split(",")[:2]) for part in o["VT"][2:].split(";")]
+                if got != want:
+                    res.violation({"kind": "spec-violation", "struct": m["key"], "case_index": j, "case": cs, "observed": o["VT"], "expected_entries": want,
+                                   "source": genprop.struct_source(gr, m["key"]),
+                                   "what": "a field whose `required` renders no check (struct value) lost or changed the entries of its other rule"})
+                    return
+        res.coverage["cel_next_to_checkless_cases"] = n
+    genprop.run(res, "C07", None, corpus, tag="c07cel", spec=False, extra=oracle, exec_cmp=False)
+
+
 def check(res):
+    cel_next_to_checkless(res)
+    res.coverage["cel_next_to_checkless"] = {k: res.coverage.get(k) for k in ("programs", "evaluations", "certificates", "cel_next_to_checkless_cases")}
     corpus = corpora.c07(res.seed, res.tier)
     cl = kf.make_classifier(res, "C07", known_findings("C07"))
     genprop.run(res, "C07", PROPFILE, corpus, classify=cl, extra=lambda gr, r: check_errors_is(res, gr, r))
